@@ -4,6 +4,7 @@ import (
 	"fmt"
 	"go/token"
 	"go/types"
+	"regexp"
 	"sort"
 	"strings"
 
@@ -644,7 +645,7 @@ func (ro *Roles) acceptEffects(r *Report, which map[string]bool) {
 		startIdx, pipeIdx := -1, -1
 		unlockBetween := false
 		admitIdx := -1
-		for i, e := range p.Effects {
+		for i, e := range substFreshFields(p.Effects) {
 			switch {
 			case e.Kind == "mapupdate" && strings.HasPrefix(e.Target, "recv.jobsByID["):
 				idReg = true
@@ -773,4 +774,65 @@ func (ro *Roles) acceptEffects(r *Report, which map[string]bool) {
 			r.Viol(parts[0], parts[1], a.pos, a.bad)
 		}
 	}
+}
+
+var plainParamRe = regexp.MustCompile(`^arg[0-9]+$`)
+var freshFieldRe = regexp.MustCompile(`^local:[A-Za-z0-9_#]+\.[A-Za-z0-9_]+$`)
+
+// substFreshFields rewrites, in path order, reads of a field of an object allocated on the path
+// (`local:x.F`, `&local:x.F`) into the value that was stored there last (the composite literal's
+// initialiser): a helper that is handed the new job and uses job.Pipeline then reads the same access
+// path as the caller that uses its own parameter.
+func substFreshFields(effs []Effect) []Effect {
+	out := make([]Effect, len(effs))
+	cur := map[string]string{}
+	var keys []string
+	sub := func(s string) string {
+		if len(cur) == 0 || !strings.Contains(s, "local:") {
+			return s
+		}
+		for _, k := range keys {
+			v, ok := cur[k]
+			if !ok {
+				continue
+			}
+			for _, pat := range []string{"&" + k, k} {
+				for from := 0; ; {
+					i := strings.Index(s[from:], pat)
+					if i < 0 {
+						break
+					}
+					i += from
+					end := i + len(pat)
+					if end < len(s) && (s[end] == '_' || s[end] >= '0' && s[end] <= '9' || s[end] >= 'a' && s[end] <= 'z' || s[end] >= 'A' && s[end] <= 'Z') {
+						from = end
+						continue
+					}
+					s = s[:i] + v + s[end:]
+					from = i + len(v)
+				}
+			}
+		}
+		return s
+	}
+	for i, e := range effs {
+		e2 := e
+		if e.Kind == "store" && freshFieldRe.MatchString(e.Target) {
+			e2.Val = sub(e.Val)
+			if plainParamRe.MatchString(e2.Val) { // only a parameter handed on unchanged (Pipeline: pipeline)
+				if _, seen := cur[e.Target]; !seen {
+					keys = append(keys, e.Target)
+					// longer keys first, so that x.FooBar is not rewritten as x.Foo + "Bar"
+					sort.Slice(keys, func(a, b int) bool { return len(keys[a]) > len(keys[b]) })
+				}
+				cur[e.Target] = e2.Val
+			} else {
+				delete(cur, e.Target)
+			}
+		} else {
+			e2.Target, e2.Val = sub(e.Target), sub(e.Val)
+		}
+		out[i] = e2
+	}
+	return out
 }
